@@ -25,6 +25,18 @@ def popOf (plugin : Bool) (j : Json) : R POp := do
   | "o" => pure .observe
   | "x" => pure (.transmit (← strsF j "keys"))
   | "r" => pure (.report (strOf (← strF j "block")) (← strsF j "ids"))
+  | "e" =>
+    let w ← match (← strF j "where") with
+      | "perform" => pure PollFail.perform
+      | "stale" => pure PollFail.stale
+      | "stalePartial" => pure PollFail.stalePartial
+      | x => throw s!"unknown failure place {x}"
+    let logs ← asList (fieldD j "logs" .null)
+    let one (l : Json) : R Log := do
+      pure { key := strOf (← strF l "key"), transmit := strOf (← strF l "tb"), confs := ← intF l "confs" }
+    let ps ← (← logs.filterM fun l => do pure ((← strF l "t") == "p")).mapM one
+    let ss ← (← logs.filterM fun l => do pure ((← strF l "t") == "s")).mapM one
+    pure (.failedPoll w ps ss)
   | _ => throw s!"unknown op type {t}"
 
 def pairOf (j : Json) : R (Nat × Nat) := do
@@ -46,14 +58,19 @@ def poutOf (j : Json) : R POut := do
          pblock := strOf (← asStr (fieldD j "pblock" (.str ""))), pick := ← strsF j "pick" }
 
 /-- a run: ops from the input, times / probe points / answers from the implementation side -/
-def runOf (plugin : Bool) (jin jimpl : Json) : R (PRun × List Obs × List POut) := do
+def pollsOf (j : Json) : R PollStats := do
+  pure { n := ← natF j "n", first := ← natF j "first", last := ← natF j "last", maxGap := ← natF j "maxGap" }
+
+def runOf (plugin : Bool) (jin jimpl : Json) : R (PRun × List Obs × List POut × Nat × PollStats) := do
   let ops ← listF (popOf plugin) jin "ops"
   let times ← listF asNat jimpl "times"
   if times.length ≠ ops.length then throw "times/ops length mismatch"
   let points ← listF pairOf jimpl "points"
   let obs ← listF obsOf jimpl "obs"
   let outs ← listF poutOf jimpl "outs"
-  pure ({ ops := times.zip ops, points := points }, obs, outs)
+  let endT ← natF jimpl "end"
+  let polls ← pollsOf (← field jimpl "polls")
+  pure ({ ops := times.zip ops, points := points }, obs, outs, endT, polls)
 
 def showObs (o : Obs) : String :=
   let p := String.join (o.pending.map fun (a, e) => if e then "E" else if a then "1" else "0")
@@ -106,15 +123,19 @@ def handle (input impl : Json) : R Reply := do
   let pruns := triples.map (·.1)
   let runs := pruns.map PRun.toRun
   let got := triples.map (·.2.1)
-  let gotOuts := triples.map (·.2.2)
+  let gotOuts := triples.map (·.2.2.1)
+  let ends := triples.map (·.2.2.2.1)
+  let gotPolls := triples.map (·.2.2.2.2)
+  let wantPolls := ends.map pollStats
+  let agreePolls := decide (gotPolls = wantPolls)
   let want := runs.map (modelRun cfg probes ckeys)
   let wantOuts := pruns.map fun r => (pouts cfg PState.init r.ops).1
   let agreeObs := decide (got = want)
   let opss := pruns.map fun r => r.ops.map (·.2)
   let agreeOuts := decide (wantOuts.length = gotOuts.length) && ((opss.zip (wantOuts.zip gotOuts)).all fun x => outsAgree x.1 x.2.1 x.2.2)
-  let agree := agreeObs && agreeOuts
-  let sm := pspec cfg probes ckeys pruns want wantOuts
-  let si := pspec cfg probes ckeys pruns got gotOuts
+  let agree := agreeObs && agreeOuts && agreePolls
+  let sm := pspec cfg probes ckeys pruns want wantOuts ends wantPolls
+  let si := pspec cfg probes ckeys pruns got gotOuts ends gotPolls
   let base := match runs with
     | r :: _ => r.ops.map (·.2)
     | [] => []
@@ -147,10 +168,13 @@ def handle (input impl : Json) : R Reply := do
     (if pbase.any (fun op => match op with | POp.acceptReport ks => decide (ks.length ≥ 2) | _ => false) then ["multi-key-report"] else []) ++
     (if (wantOuts.map fun l => (l.map (·.ids)).eraseDups.length).any (· ≥ 3) then ["observe-answers-change"] else []) ++
     (if observes.isEmpty then [] else ["observe-nonempty"]) ++
+    (if pbase.any (fun op => match op with | POp.failedPoll _ _ _ => true | _ => false) then ["failed-poll"] else []) ++
+    (if pbase.any (fun op => match op with | POp.failedPoll w ps ss => !(failedOps w ps ss).isEmpty | _ => false) then ["failed-poll-processes-logs"] else []) ++
     (if cfg.minConfs > 0 then ["minconfs>0"] else [])
   pure { agree := agree, specModel := sm, specImpl := si,
-         diff := if agree then "" else if !agreeObs then firstDiff want got else firstOutDiff opss wantOuts gotOuts,
-         fail := if si then "" else pexplain cfg probes ckeys pruns got gotOuts,
+         diff := if agree then "" else if !agreePolls then s!"polls: model {repr wantPolls} impl {repr gotPolls}"
+                 else if !agreeObs then firstDiff want got else firstOutDiff opss wantOuts gotOuts,
+         fail := if si then "" else pexplain cfg probes ckeys pruns got gotOuts ends gotPolls,
          nontrivial := decide (orders.length ≥ 2) && !g.logged.isEmpty,
          tags := tags }
 
